@@ -39,7 +39,7 @@ def call(pts, tol, mode):
         tr = Track([Obs(ENUCoords(float(9 - p[1]), float(p[0] * (-1) ** k), float(k + 1)), ObsTime.readUnixTime(t0 + k)) for k, p in enumerate(pts)])
         try:
             with core.quiet():
-                first = simplify(tr, float(tol) * sc, md)
+                first = simplify(tr, float(tol) * sc * (3 if len(pts) % 2 else 1), md)        # (with the same or with another tolerance)
                 if first is not None and first.size() > 1 and len(pts) > 2:
                     first.removeObs(0)
         except (Exception, SystemExit):
@@ -50,7 +50,9 @@ def call(pts, tol, mode):
             tr.getObs(k).position.setX(float(p[0]) * sc)
             tr.getObs(k).position.setY(float(p[1]) * sc)
     else:
-        tr = Track([Obs(ENUCoords(float(p[0]) * sc, float(p[1]) * sc, float(k + 1)), ObsTime.readUnixTime(t0 + k)) for k, p in enumerate(pts)])
+        # whole coordinates are handed over as Python ints in a third of these calls (ENUCoords(3, 4, 0) is what users write)
+        cf = (lambda v: int(v)) if sc == 1.0 and len(pts) % 3 == 0 else (lambda v: float(v) * sc)
+        tr = Track([Obs(ENUCoords(cf(p[0]), cf(p[1]), float(k + 1)), ObsTime.readUnixTime(t0 + k)) for k, p in enumerate(pts)])
     try:
         with core.quiet():
             out = simplify(tr, int(tol) if tol.denominator == 1 and len(pts) % 2 and sc == 1.0 else float(tol) * sc, md)
